@@ -9,6 +9,7 @@
 
   Proved for all inputs (no size bounds):
     parent_restored              writing leaves every feature of the full record as it was
+    annotations_parent_unchanged … and every (nested) dict of its annotations
     cross_origin_sequence        the file's sequence is `seq[start:] ++ seq[:end]` (or `seq[start:end]`)
     sequence_is_region_sequence  … i.e. nucleotide `i` of the file is nucleotide `toRecord i` of the record
     renumber_consistent          every cross reference by number is sent through ONE renumbering per
@@ -26,12 +27,15 @@
                                  region feature spanning the file, `core_location` texts read back to the bases of
                                  the `proto_core` features (also `regionFeatureOK`)
     write_succeeds_partial       (also `writable`) `write_to_genbank` does not raise
+    motif_locations_partial      one-part leader/tail texts are rewritten to the text of the moved part
     references_resolve_partial   the written feature a rewritten reference points at is the image of the
                                  original referent
   Left to the executable spec on the real output (correspondence): `Record.from_genbank` itself (executed, not
   modelled) showing one region with the same content; leader/tail texts.
 -/
 import ASV.Proofs.RegionExtractRegion
+import ASV.Proofs.RegionAnnotations
+import ASV.Proofs.RegionExtractMotif
 namespace ASV.C12
 open ASV ASV.RegionExtract
 
@@ -47,6 +51,36 @@ theorem annotations_record_origin (rd : RegionData) :
 theorem parent_restored (rd : RegionData) (rec : BioRecord) (w : Written)
     (h : writeToGenbank rd rec = .ok w) : w.parentAfter = rec.features :=
   writeToGenbank_parent rd rec w h
+
+/-- … and so do its annotations, nested dicts included.  The annotation dicts live in a heap of objects referring
+    to each other by address (`AHeap`); `_build_annotations` (deep copy, `setdefault` twice, three item
+    assignments — `buildAnnotationsHeap`) changes no object that existed before the call, so the full record's
+    annotations dict, read with all references resolved (`readTop`), says afterwards what it said before —
+    whether or not it already carried a structured comment or the antiSMASH-Data entry. -/
+theorem annotations_parent_unchanged (h : AHeap) (parent : Nat) (rd : RegionData) (h' : AHeap) (a : Nat)
+    (hb : buildAnnotationsHeap h parent rd = some (h', a)) :
+    (∀ i, i < h.length → h'[i]? = h[i]?) ∧ ∃ t, readTop h parent = some t ∧ readTop h' parent = some t :=
+  buildAnnotations_keeps_parent h parent rd h' a hb
+
+def exLaterRd : RegionData := { start := 13, «end» := 15, cands := [], subs := [⟨2, .simple ⟨13, 15, .fwd⟩⟩] }
+
+/-- a full record carrying the comment `main.add_antismash_comments` adds: top dict at address 2 -/
+def exHeap : AHeap :=
+  [.data [("Version", "7.1"), ("Run date", "2000-01-01")], .comments [("antiSMASH-Data", 0)],
+   .top [("topology", "circular")] (some 1)]
+
+/-- the code: the region file gets NOTE / Orig. start / Orig. end, the full record keeps its comment … -/
+example : (buildAnnotationsHeap exHeap 2 exLaterRd).map (fun r => (readTop r.1 r.2, readTop r.1 2)) =
+    some (some ⟨[("topology", "circular")], some [("antiSMASH-Data", [("Version", "7.1"), ("Run date", "2000-01-01"),
+            ("NOTE", notePlain), ("Orig. start", "13"), ("Orig. end", "15")])]⟩,
+          readTop exHeap 2) := by decide
+/-- … which is what the spec expects of the file -/
+example : (buildAnnotationsHeap exHeap 2 exLaterRd).map (fun r => readTop r.1 r.2) =
+    (readTop exHeap 2).map (fun t => some (expectedAnn t exLaterRd)) := by decide
+/-- the variant with one-level copies (`dict(annotations)`, `dict(structured_comment)`) shares the antiSMASH-Data
+    dict with the full record and writes the region's NOTE into it: the theorem is false for it -/
+example : (buildAnnotationsShallow exHeap 2 exLaterRd).map (fun r => decide (readTop r.1 2 = readTop exHeap 2)) = some false := by
+  decide
 
 /-- The file's sequence: the part before the origin followed by the part after it for a region
     running over the origin, the plain slice otherwise. -/
@@ -86,7 +120,7 @@ def ShiftSameBases (rd : RegionData) (rec : BioRecord) (w : Written) : Prop :=
     non-empty parts inside the record; and, only for a region over the origin, where `offset_location` is at
     work: a feature running over the origin has one part on each side, or is shorter than the record with all
     parts on one strand (`oneStrand`: abutting pieces of different strands make `offset_location` raise); any
-    other feature has exons fitting into its hull and all parts on one strand.  Nothing else is assumed: any
+    other feature is not as long as the record and has all parts on one strand.  Nothing else is assumed: any
     number of exons, abutting exons in runs of any length (after the repair D58), both strands. -/
 theorem shift_same_bases_partial (rd : RegionData) (rec : BioRecord) (w : Written)
     (h : writeToGenbank rd rec = .ok w) (hwf : wfInput rd rec = true) : ShiftSameBases rd rec w :=
@@ -157,6 +191,22 @@ theorem extract_reloads_partial (rd : RegionData) (rec : BioRecord) (w : Written
   obtain ⟨h1, h2, h3, h4, h5⟩ := written_selfconsistent rd rec w h hwf hcons
   obtain ⟨htags, hspan, _⟩ := consistent_unpack rd rec hcons
   exact ⟨h1, h2, h3, h4, written_oneRegion rd rec w h hwf htags hspan hreg, h5⟩
+
+/-- Leader and tail locations of precursor peptides (`_adjust_motif`): a `leader_location` / `tail_location`
+    text naming one part is rewritten to the text of that part moved into file coordinates (behind the part of
+    the file that comes from before the origin, if the part lies after it); the new text reads back
+    (`location_from_string`) to the moved part, and the moved part covers the same bases.
+    Remaining: texts naming several parts (a leader or tail cut by an intron) — `build_location_from_others`
+    re-joins them; covered by the executable `motifLocsOk`. -/
+theorem motif_locations_partial (t : String) (p : Part) (rd : RegionData) (L : Int) (hL : 0 < L)
+    (ht : locFromString t = some (.simple p))
+    (hplain : rd.crossesOrigin = false → rd.start ≤ p.lo ∧ p.hi ≤ rd.end)
+    (hcross : rd.crossesOrigin = true → 0 < rd.end ∧ rd.end ≤ rd.start ∧ rd.start < L ∧
+      ((rd.start ≤ p.lo ∧ p.hi ≤ L) ∨ (0 ≤ p.lo ∧ p.hi ≤ rd.end ∧ p.lo < p.hi))) :
+    ∃ p', adjustMotifLoc t rd L = .ok (locToString (.simple p')) ∧
+      locFromString (locToString (.simple p')) = some (.simple p') ∧ SameBases L rd (.simple p) (.simple p') :=
+  ⟨_, adjustMotifLoc_single t p rd L ht, locFromString_locToString _ (by simp [Loc.parts]),
+    motif_single_sameBases p rd L hL hplain hcross⟩
 
 /-- The write does not raise: under `wfInput` every `offset_location` call of the extraction succeeds (features
     after the origin, features over the origin, core locations), and with every dictionary lookup of
